@@ -236,6 +236,79 @@ def gen_instances(ctx, n):
     return out
 
 
+# ------------------------------------------- enumerate_state_machine (tie H)
+def esm_case(rng, backend):
+    """Random initial predicate and action over a small arena."""
+    decl = games.random_decl(rng, max_states=12, allow_const=False)
+    ar = games.Arena(decl, backend)
+    init = games.rand_table1(rng, ar, rng.choice([0.1, 0.3]))
+    if not any(init):
+        init[rng.randrange(ar.ns)] = True
+    act = games.rand_table2(rng, ar, rng.choice([0.05, 0.15, 0.3]))
+    if not any(any(r) for r in act):
+        act[0][0] = True
+    return dict(kind='esm', decl=decl, backend=backend, init=init, action=act)
+
+
+def esm_check(case):
+    """enumerate_state_machine against explicit reachability: the nodes are
+    exactly the valuations reachable from `init` by `action`, the edges exactly
+    the action steps between them.  Returns a description of the difference
+    or None (also None when the library refuses the input by assertion)."""
+    import omega.games.enumeration as enum
+    ar = games.Arena(case['decl'], case['backend'])
+    aut = ar.aut
+    init, act = case['init'], case['action']
+    u, a = ar.bdd1(init), ar.bdd2(act)
+    names = ar.names['env'] + ar.names['sys']
+    try:
+        g = enum.enumerate_state_machine(u, a, aut)
+    except AssertionError as e:
+        return None if (u == aut.false or a == aut.false) else \
+            f'enumerate_state_machine raised {e!r}'
+    keys = set()
+    for _, d in g.nodes(data=True):
+        keys |= set(d)
+    if keys != set(names):
+        # a variable outside the support of init and action is not part of
+        # the node labels: compare on the projection
+        names = [n for n in names if n in keys]
+    st = ar.states()
+    proj = lambda s: tuple(ar.state_dict(*s)[n] for n in names)
+    reach = {i for i, s in enumerate(st) if init[ar.sidx(*s)]}
+    frontier = list(reach)
+    succ = {}
+    while frontier:
+        i = frontier.pop()
+        c, x, y = st[i]
+        out = set()
+        for xp in range(ar.nx):
+            for yp in range(ar.ny):
+                if act[ar.sidx(c, x, y)][xp * ar.ny + yp]:
+                    j = st.index((c, xp, yp))
+                    out.add(j)
+                    if j not in reach:
+                        reach.add(j)
+                        frontier.append(j)
+        succ[i] = out
+    exp_nodes = {proj(st[i]) for i in reach}
+    exp_edges = {(proj(st[i]), proj(st[j])) for i in reach for j in succ[i]}
+    got_nodes = [tuple(d[n] for n in names) for _, d in g.nodes(data=True)]
+    if len(set(got_nodes)) != len(got_nodes):
+        return 'two nodes carry the same valuation'
+    lab = {k: tuple(d[n] for n in names) for k, d in g.nodes(data=True)}
+    got_edges = {(lab[p], lab[q]) for p, q in g.edges()}
+    if set(got_nodes) != exp_nodes:
+        return (f'nodes differ from the reachable valuations: missing '
+                f'{sorted(exp_nodes - set(got_nodes))[:3]}, spurious '
+                f'{sorted(set(got_nodes) - exp_nodes)[:3]} (over {names})')
+    if got_edges != exp_edges:
+        return (f'edges differ from the action steps: missing '
+                f'{sorted(exp_edges - got_edges)[:3]}, spurious '
+                f'{sorted(got_edges - exp_edges)[:3]} (over {names})')
+    return None
+
+
 def correspond(ctx):
     n = 160 if ctx.thorough else 30
     terms, info = [], []
@@ -273,7 +346,21 @@ def correspond(ctx):
                 'verified checker rejects the enumerated graph: ' + str(why),
                 case_of(inst, q), impl=dict(nodes=nodes, edges=edges),
                 property_fails=True))
-    ctx.cov['evaluations'] += len(res)
+    n_esm = 400 if ctx.thorough else 60
+    for i in range(n_esm):
+        case = esm_case(ctx.rng, 'cudd' if i % 2 else 'autoref')
+        try:
+            bad = esm_check(case)
+        except Exception as e:
+            bad = f'raised {e!r}'
+        if bad:
+            mism.append(Mismatch('enumerate_state_machine: ' + bad, case,
+                                 property_fails=True))
+    ctx.extra['enumerate_state_machine'] = dict(
+        cases=n_esm, rule='random initial predicates and actions over '
+        'arenas of at most 12 valuations, both back ends; nodes = reachable '
+        'valuations and edges = action steps, by explicit search (tie H only)')
+    ctx.cov['evaluations'] += len(res) + n_esm
     ctx.cov['distinct_nontrivial'] += sum(
         1 for (_, _, nodes, _) in info if len(nodes) > 1)
     ctx.cov['rule'] = (
@@ -358,6 +445,10 @@ def replay(path):
     import json
     d = json.load(open(path))
     case = d.get('input') or d.get('case')
+    if case and case.get('kind') == 'esm':
+        bad = esm_check(case)
+        print('still fails: ' + bad if bad else 'passes')
+        return 1 if bad else 0
     if not case or 'qinit' not in case:
         print('no concrete input in replay file:', d.get('broken'))
         return 1
